@@ -129,6 +129,7 @@ func worker(f lib.Flags) {
 	out := bufio.NewWriter(os.Stdout)
 	defer out.Flush()
 	var drv *lib.Driver
+	tieBroken := 0
 	defer func() {
 		if drv != nil {
 			drv.Close()
@@ -157,8 +158,17 @@ func worker(f lib.Flags) {
 					}
 					drv = d
 				}
-				if drv != nil {
+				if drv != nil && tieBroken < 3 {
 					o = runSched(req.Sc, drv)
+					for _, t := range o.Ties {
+						if t.Err != "" || t.Model != t.Code {
+							tieBroken++
+						}
+					}
+				} else if drv != nil {
+					// the tie is already known to be broken: do not spend the budget on more schedules
+					// (each disagreement can cost a full quiescence bound); the monitors keep running
+					o.count("tie:skipped-after-3-disagreements")
 				}
 			default:
 				o = runStress(req.Sc)
@@ -218,11 +228,7 @@ func runShard(f lib.Flags, scs []Scenario, idxs []int, outs []Outcome) {
 				var o Outcome
 				if len(rest) == 3 && json.Unmarshal([]byte(rest[2]), &o) == nil {
 					outs[i] = o
-					broken := false
-					for _, t := range o.Ties {
-						broken = broken || t.Err != "" || t.Model != t.Code
-					}
-					if len(o.Viols) > 0 || broken {
+					if len(o.Viols) > 0 {
 						// enough failing inputs: do not spend the whole budget waiting on blocked goroutines
 						if stopEarly.Add(1) >= 8 {
 							cmd.Process.Kill()
